@@ -79,6 +79,7 @@ type Stats struct {
 	Unsupported   map[string]int
 	Unwinds       map[string]int
 	ReachSat      int
+	CacheHits     int
 	FuncsExecuted map[string]bool
 }
 
@@ -127,6 +128,8 @@ type Exec struct {
 	extState  map[string]Value
 	pathSites map[string]bool
 	inputMeta map[string]InputMeta
+	pcKey     uint64
+	qcache    map[[2]uint64]Result
 	initTarget *ssa.Function
 
 	// per instance
@@ -137,6 +140,8 @@ type Exec struct {
 	findingMeta map[*Finding]map[string]InputMeta
 	byteTab  [256]*Term
 	Trace    bool
+	Progress func(*Exec)
+	LastEnd  string
 	intr     map[string]intrinsic
 	vrtPath  string
 }
@@ -186,6 +191,9 @@ func (ex *Exec) Run(fn *ssa.Function) {
 			return
 		}
 		ex.runPath(fn)
+		if ex.Progress != nil {
+			ex.Progress(ex)
+		}
 		// backtrack
 		for len(ex.trail) > 0 {
 			d := &ex.trail[len(ex.trail)-1]
@@ -212,6 +220,7 @@ func (ex *Exec) Run(fn *ssa.Function) {
 
 func (ex *Exec) runPath(fn *ssa.Function) {
 	ex.pc = nil
+	ex.pcKey = 14695981039346656037
 	ex.depth = 0
 	ex.globals = map[*ssa.Global]*Loc{}
 	ex.initState = map[*ssa.Package]int{}
@@ -236,6 +245,7 @@ func (ex *Exec) runPath(fn *ssa.Function) {
 			if !ok {
 				panic(r)
 			}
+			ex.LastEnd = fmt.Sprintf("%d %s", pe.kind, pe.msg)
 			switch pe.kind {
 			case endInfeasible:
 				ex.Stats.PathsInfeas++
@@ -290,9 +300,25 @@ func (ex *Exec) assume(c *Term) {
 		panic(pathEnd{endInfeasible, ""})
 	}
 	ex.pc = append(ex.pc, c)
+	ex.pcKey = ex.pcKey*1099511628211 ^ uint64(c.ID+1)*0x9E3779B97F4A7C15
 }
 
 func (ex *Exec) check(extra *Term) Result {
+	if extra != nil {
+		if ex.qcache == nil {
+			ex.qcache = map[[2]uint64]Result{}
+		}
+		k := [2]uint64{ex.pcKey, uint64(extra.ID)}
+		if r, ok := ex.qcache[k]; ok {
+			ex.Stats.CacheHits++
+			return r
+		}
+		r, _ := ex.sol.Check(ex.pc, extra, nil)
+		if r != Unknown {
+			ex.qcache[k] = r
+		}
+		return r
+	}
 	r, _ := ex.sol.Check(ex.pc, extra, nil)
 	return r
 }
@@ -520,6 +546,9 @@ func (ex *Exec) require(safe *Term, kind string) {
 	}
 	ex.Stats.ObSolver++
 	bad := ex.st.Not(safe)
+	if ex.check(bad) == Unsat {
+		return
+	}
 	r, m := ex.sol.Check(ex.pc, bad, ex.inputs)
 	switch r {
 	case Sat:
@@ -553,7 +582,14 @@ func (ex *Exec) assertOb(c *Term, label string) {
 		ex.recordAssert(label, m)
 		panic(pathEnd{endPanic, "assert " + label})
 	}
+	if ex.seen[key] {
+		ex.assume(c)
+		return
+	}
 	ex.Stats.ObSolver++
+	if ex.check(ex.st.Not(c)) == Unsat {
+		return
+	}
 	r, m := ex.sol.Check(ex.pc, ex.st.Not(c), ex.inputs)
 	switch r {
 	case Sat:
